@@ -234,6 +234,69 @@ pub fn run(ctx: &Ctx) {
             acc.sample(seed, i ^ 0x9999, || json!({"attribute_area": s}));
         }
     });
+
+    // size thresholds: attribute counts (the duplicate check keeps every key range seen so far), key
+    // and value lengths, runs of blanks, runs of the other quote / of '>' inside values
+    let ns: Vec<u32> = size_list(ctx.tier.pick(40, 140), ctx.tier.pick(10, 13));
+    let ms: Vec<u32> = vec![0, 1, 2, 3, 7, 8, 9, 15, 16, 17, 31, 32, 33, 63, 64, 65, 255, 256, 257];
+    const SHAPES: [&str; 12] = [
+        "n distinct attributes k<i>='<i>'",
+        "n distinct attributes, then the first key again, then z='1'",
+        "n distinct attributes, then the middle key again, then z='1'",
+        "n distinct attributes, then the last key again (blanks around =), then z='1'",
+        "key of n bytes, value of m bytes, then b='2'",
+        "key of n bytes twice (values of m bytes), then b='3'",
+        "a, n blanks, =, m blanks (tab/LF mixed), '1', then b='2'",
+        "value of n double quotes in single quotes, value of m '>' in double quotes, then c='3'",
+        "html: unquoted value of n bytes, then m value-less keys",
+        "key without = of n bytes between two good attributes",
+        "n attributes with the same key",
+        "unterminated quote after n good attributes and m bytes of value",
+    ];
+    let (nn, nm, nsh) = (ns.len() as u64, ms.len() as u64, SHAPES.len() as u64);
+    ctx.layer("stretch", 3, nn * nm * nsh, json!({"shapes": SHAPES, "n": format!("0..=dense and around the powers of two ({} sizes)", nn), "m": ms}), |i0, acc| {
+        let mut i = i0;
+        let m = ms[(i % nm) as usize] as usize;
+        i /= nm;
+        let n = ns[(i % nn) as usize] as usize;
+        let shape = (i / nn) as usize;
+        // shapes that do not use m run once (m = first entry)
+        if matches!(shape, 0 | 1 | 2 | 3 | 9 | 10) && m != ms[0] as usize {
+            return;
+        }
+        let distinct = |n: usize| (0..n).map(|k| format!("k{}='{}'", k, k)).collect::<Vec<_>>().join(" ");
+        let s = match shape {
+            0 => distinct(n),
+            1 if n > 0 => format!("{} k0='again' z='1'", distinct(n)),
+            2 if n > 0 => format!("{} k{}='again' z='1'", distinct(n), n / 2),
+            3 if n > 0 => format!("{} k{} = \"again\" z='1'", distinct(n), n - 1),
+            4 => format!("{}='{}' b='2'", "k".repeat(n + 1), "v".repeat(m)),
+            5 => format!("{}='{}' {}=\"{}\" b='3'", "k".repeat(n + 1), "v".repeat(m), "k".repeat(n + 1), "w".repeat(m)),
+            6 => format!("a{}={}'1' b='2'", " ".repeat(n), "\t\n".repeat(m)),
+            7 => format!("a='{}' b=\"{}\" c='3'", "\"".repeat(n), ">".repeat(m)),
+            8 => format!("a={} {}", "x".repeat(n + 1), (0..m).map(|k| format!("j{}", k)).collect::<Vec<_>>().join(" ")),
+            9 => format!("a='1' {} b='2'", "k".repeat(n + 1)),
+            10 => (0..n).map(|k| format!("a='{}'", k)).collect::<Vec<_>>().join(" "),
+            11 => format!("{} q='{}", distinct(n), "o".repeat(m)),
+            _ => return,
+        };
+        for mode in [0u8, 1, 2, 3, 6, 7, 8, 9] {
+            acc.evaluations += 1;
+            acc.traces += 1;
+            match check_one(&s, mode) {
+                Ok(items) => {
+                    acc.transitions += items.len() as u64 + 4;
+                    if mode == 2 {
+                        acc.nt_count += 1;
+                    }
+                }
+                Err(what) => {
+                    let head = |x: &str| if x.len() > 300 { format!("{}...({} bytes)...{}", &x[..150], x.len(), &x[x.len() - 80..]) } else { x.to_string() };
+                    acc.violation((3, i0), format!("attribute area {:?} ({}): {}", head(&s), mode_name(mode), head(&what)), json!({"s": s, "mode": mode}));
+                }
+            }
+        }
+    });
 }
 
 pub fn replay(case: &Value) -> Result<(), String> {
